@@ -16,14 +16,16 @@ LEVEL = "proof"
 META = {
     "category": "proof",
     "text": "Coq theorems: the selector-table builders of jumptable_utils return perfect hashes / partitions whenever "
-            "they return, and executable models of the linear, sparse and dense dispatchers of both code generators "
-            "equal a two-line specification (spec_dispatch) for every table, calldata (incl. < 4 bytes) and call value. "
-            "The builder model is tied to the real functions by exact-output correspondence; the emitted dispatchers "
-            "are tied to the specification by executing real compiler output (3 strategies x 2 pipelines) on pyrevm.",
-    "level_note": "Trusted: Coq kernel + vm_compute; hand-written models (Jumptable.v, Dispatch.v) tied by correspondence, "
-                  "not by translation; keccak/method_id and label resolution (assembler) are outside the model; "
-                  "builder theorems are conditional on the builder returning (RuntimeError on adversarial id sets is C20).",
-    "technique": "Coq proof over hand-written models + differential correspondence (real functions, real compiler + pyrevm)",
+            "they return (kernels regenerated from the source on every run and proved equal to the model), and executable "
+            "models of the linear, sparse and dense dispatchers of both code generators equal a two-line specification "
+            "(spec_dispatch) for every table, calldata (incl. < 4 bytes) and call value; EVM word arithmetic of the dense "
+            "dispatcher is proved equal to the builder's integer arithmetic. The emitted dispatchers are tied to the "
+            "specification by executing real compiler output (3 strategies x 2 pipelines) on pyrevm.",
+    "level_note": "Trusted: Coq kernel + vm_compute; c07_jt2coq translator (4 kernels; bridged + diffed against CPython); "
+                  "hand models of the two generate_* loops and of the dispatchers are tied by correspondence, not translation; "
+                  "keccak/method_id and label resolution (assembler) are outside the model; builder theorems are conditional "
+                  "on the builder returning (RuntimeError on adversarial id sets is C20).",
+    "technique": "Coq proof over translated kernels + hand-written models, differential correspondence (real functions, real compiler + pyrevm)",
 }
 
 IMPORTS = "From Verif Require Import Base.Word256 C07.Jumptable C07.Dispatch C07.Harness.\n"
